@@ -183,4 +183,11 @@ func init() {
 	fire("C15", "parsed-file-remembered-by-path", pj, `(?s)"encoding/json"\n(.*?)func Read\(path string\) poly\.Sequence \{\n\tfile, _ := ioutil\.ReadFile\(path\)\n\tsequence := Parse\(file\)\n`,
 		"\"encoding/json\"\n\t\"sync\"\n${1}var parsedFiles sync.Map\n\nfunc Read(path string) poly.Sequence {\n\tif cached, ok := parsedFiles.Load(path); ok {\n\t\treturn cached.(poly.Sequence)\n\t}\n\tfile, _ := ioutil.ReadFile(path)\n\tsequence := Parse(file)\n\tparsedFiles.Store(path, sequence)\n", "STATE/memo-key")
 	fire("C20", "decoding-error-sent-without-waiting", "io/uniprot/uniprot.go", `\t\t\t\terrors <- err\n\t\t\t\}\n\t\t\tentries <- e\n`, "\t\t\t\tselect {\n\t\t\t\tcase errors <- err:\n\t\t\t\tdefault:\n\t\t\t\t}\n\t\t\t}\n\t\t\tentries <- e\n", "STATE/non-blocking-send")
+	gffTail := `\tsequence\.Sequence = sequenceBuffer\.String\(\)\n\tsequence\.Meta = meta\n\n\treturn sequence\n\}\n`
+	fire("C14", "sequence-text-stored-into-a-copy", "io/gff/gff.go", gffTail, "\treturn withText(sequence, sequenceBuffer.String(), meta)\n}\n\nfunc withText(sequence poly.Sequence, bases string, meta poly.Meta) poly.Sequence {\n\tsequence.Sequence = bases\n\tsequence.Meta = meta\n\treturn sequence\n}\n", "STATE/parent receives the sequence text")
+	silent("C14", "sequence-text-stored-through-a-pointer", "io/gff/gff.go", gffTail, "\tfillText(&sequence, sequenceBuffer.String(), meta)\n\treturn sequence\n}\n\nfunc fillText(sequence *poly.Sequence, bases string, meta poly.Meta) {\n\tsequence.Sequence = bases\n\tsequence.Meta = meta\n}\n")
+	fire("C09", "seen-hashes-searched-by-bisection", cl, `\t\t\tfor _, existingSeqhash := range existingSeqhashes \{\n\t\t\t\tif existingSeqhash == seqhashConstruct \{\n\t\t\t\t\texists = true\n\t\t\t\t\}\n\t\t\t\}\n`,
+		"\t\t\tposition := sort.SearchStrings(existingSeqhashes, seqhashConstruct)\n\t\t\texists = position < len(existingSeqhashes) && existingSeqhashes[position] == seqhashConstruct\n", "STATE/search-unsorted")
+	fire("C15", "file-read-through-a-size-limit", pj, `(?s)"encoding/json"\n(.*?)\tfile, _ := ioutil\.ReadFile\(path\)\n`,
+		"\"encoding/json\"\n\t\"io\"\n\t\"os\"\n${1}\thandle, _ := os.Open(path)\n\tfile, _ := ioutil.ReadAll(io.LimitReader(handle, 1<<20))\n\thandle.Close()\n", "STATE/truncating-read")
 }
